@@ -351,8 +351,7 @@ class Eval:
                     return E(TOP)      # integer truncation of a real weight
                 return lift(f, x)
         if name == "sum" and isinstance(x, M):
-            ax = dict(kwargs).get("axis")
-            return CNT(x, "all" if ax is None and not args else "axis")
+            return CNT(x, axis_kind(args, kwargs, 0))
         if name in ("all", "any") and isinstance(x, M):
             return CNT(x, name)
         raise Inconclusive("PW: method .%s" % name)
@@ -408,8 +407,7 @@ class Eval:
         if d in ("numpy.sum", "numpy.count_nonzero") and args:
             x = self.ev(args[0])
             if isinstance(x, M):
-                ax = dict(kwargs).get("axis")
-                return CNT(x, "all" if ax is None and len(args) == 1 else "axis")
+                return CNT(x, axis_kind(args, kwargs, 1))
         if d in ("numpy.any", "numpy.all") and len(args) == 1:
             x = self.ev(args[0])
             if isinstance(x, M):
@@ -429,6 +427,19 @@ class Eval:
                 if isinstance(ps, PS) and isinstance(m, M) and "*" in m.d:
                     return LISTOF(ps, m.d["*"][0], m.d["*"][1])
         raise Inconclusive("PW: comprehension %s" % fmt(t)[:80])
+
+
+def axis_kind(args, kwargs, first):
+    ax = dict(kwargs).get("axis")
+    if ax is None and len(args) > first:
+        ax = args[first]
+    if ax is None:
+        return "all"
+    if is_const(ax, 0):
+        return "axis0"
+    if is_const(ax, 1):
+        return "axis1"
+    return "axis?"
 
 
 class WHERE:
@@ -781,7 +792,7 @@ def rule_counts(prog, rep, rule="PW.count"):
         ok = True
         for pair in signs.PAIRS:
             r = Eval({("param", "A"): M(mat(pair))}, {}).ev(term)
-            if not isinstance(r, CNT) or r.kind != "axis" or not _adj_indicator(r.m, pair):
+            if not isinstance(r, CNT) or r.kind not in ("axis0", "axis1") or not _adj_indicator(r.m, pair):
                 ok = False
         rep.check(rule, ok, where_of(f), "degrees sums the symmetric 0/1 adjacency indicator along one axis",
                   "degrees does not sum the adjacency indicator")
